@@ -1,3 +1,4 @@
+#![feature(sized_hierarchy)]   // to state the bounds of `AsRef<T>` (T: PointeeSized) in its external trait declaration
 use vstd::prelude::*;
 use std::cmp;
 use vstd::std_specs::cmp::OrdSpec;
@@ -12,7 +13,9 @@ use http::{Method, StatusCode, Version};
 #[allow(unused_imports)] use http::header::*;   // every header-name constant the repo may mention
 #[allow(unused_imports)] use std::io::{Seek, SeekFrom};
 #[allow(unused_imports)] use std::borrow::Cow;
+#[allow(unused_imports)] use std::fs;
 use url::Url;
+use std::marker::PointeeSized;
 use encoding_rs::Encoding;
 use flate2::bufread::{DeflateDecoder, GzDecoder};
 //@@ define head
